@@ -31,6 +31,7 @@ CONSTANTS
     MaxSnaps,       \* snapshot ids 1..MaxSnaps
     MaxErrs,        \* bound on injected LowerLevelUpdate failures
     MaxReopens,     \* bound on close/reopen cycles (needs HasLL /\ LLInit)
+    InitKeys,       \* keys the lower level already holds (value <<9>>) when the behaviour starts
     MaxPokes,       \* bound on merger cycles started without incoming data (pings / idle runs)
     Devs            \* named deviations switched on
 
@@ -206,18 +207,20 @@ TreeHasMrg(t) == \E p \in Paths : t[p].has /\ \E i \in 1..Len(t[p].segs) : \E k 
 TreeEmpty(t) == \A p \in Paths : t[p].has => t[p].segs = <<>>    \* segmentStack.isEmpty()
 
 -----------------------------------------------------------------------------
+InitContent == [EmptyContent EXCEPT ![Root].m = [k \in Keys |-> IF k \in InitKeys THEN Present(<<9>>) ELSE Absent]]
+
 Init ==
     /\ coll = [p \in Paths |-> [ex |-> p = Root, incar |-> 0, hi |-> 0]]
     /\ top = NilSec /\ mid = NilSec /\ base = NilSec /\ clean = NilSec
-    /\ ll = [nil |-> ~(HasLL /\ LLInit), c |-> EmptyContent]
-    /\ store = EmptyContent
+    /\ ll = [nil |-> ~(HasLL /\ LLInit), c |-> InitContent]
+    /\ store = InitContent
     /\ upto = [mid |-> 0, base |-> 0, store |-> 0]
     /\ cached = [on |-> FALSE, c |-> Obs(EmptyContent)]
     /\ mPc = "idle" /\ mw = [t |-> NoTree, base |-> NilSec, all |-> FALSE]
     /\ pPc = "idle"
     /\ life = "open" /\ mEx = FALSE /\ pEx = FALSE
     /\ snaps = [i \in 1..MaxSnaps |-> [open |-> FALSE, c |-> Obs(EmptyContent)]]
-    /\ ref = Obs(EmptyContent) /\ refs = <<Obs(EmptyContent)>>
+    /\ ref = Obs(InitContent) /\ refs = <<Obs(InitContent)>>
     /\ errs = 0 /\ nre = 0 /\ pokes = 0
     /\ hist = <<>>
 
